@@ -352,14 +352,6 @@ func (s *S3Proxy) CreateMultipartUpload(ctx context.Context, input s3response.Cr
 		input.WebsiteRedirectLocation = nil
 	}
 
-	var expires *time.Time
-	if input.Expires != nil {
-		exp, err := time.Parse(time.RFC1123, *input.Expires)
-		if err == nil {
-			expires = &exp
-		}
-	}
-
 	out, err := s.client.CreateMultipartUpload(ctx, &s3.CreateMultipartUploadInput{
 		Bucket:                    input.Bucket,
 		Key:                       input.Key,
@@ -369,7 +361,6 @@ func (s *S3Proxy) CreateMultipartUpload(ctx context.Context, input s3response.Cr
 		ContentEncoding:           input.ContentEncoding,
 		ContentLanguage:           input.ContentLanguage,
 		ContentType:               input.ContentType,
-		Expires:                   expires,
 		SSECustomerAlgorithm:      input.SSECustomerAlgorithm,
 		SSECustomerKey:            input.SSECustomerKey,
 		SSECustomerKeyMD5:         input.SSECustomerKeyMD5,
@@ -392,7 +383,7 @@ func (s *S3Proxy) CreateMultipartUpload(ctx context.Context, input s3response.Cr
 		RequestPayer:              input.RequestPayer,
 		ServerSideEncryption:      input.ServerSideEncryption,
 		StorageClass:              input.StorageClass,
-	}, rawExpires(input.Expires, expires))
+	}, rawExpires(input.Expires))
 	if err != nil {
 		return s3response.InitiateMultipartUploadResult{}, handleError(err)
 	}
@@ -777,14 +768,6 @@ func (s *S3Proxy) PutObject(ctx context.Context, input s3response.PutObjectInput
 	input.ObjectLockMode = ""
 	input.ObjectLockLegalHoldStatus = ""
 
-	var expire *time.Time
-	if input.Expires != nil {
-		exp, err := time.Parse(time.RFC1123, *input.Expires)
-		if err == nil {
-			expire = &exp
-		}
-	}
-
 	// streaming backend is not seekable,
 	// use unsigned payload for streaming ops
 	output, err := s.client.PutObject(ctx, &s3.PutObjectInput{
@@ -796,7 +779,6 @@ func (s *S3Proxy) PutObject(ctx context.Context, input s3response.PutObjectInput
 		ContentDisposition:        input.ContentDisposition,
 		ContentLanguage:           input.ContentLanguage,
 		CacheControl:              input.CacheControl,
-		Expires:                   expire,
 		Metadata:                  input.Metadata,
 		Body:                      input.Body,
 		Tagging:                   input.Tagging,
@@ -826,7 +808,7 @@ func (s *S3Proxy) PutObject(ctx context.Context, input s3response.PutObjectInput
 	}, s3.WithAPIOptions(
 		v4.SwapComputePayloadSHA256ForUnsignedPayloadMiddleware,
 		removeDefaultContentType,
-	), rawExpires(input.Expires, expire))
+	), rawExpires(input.Expires))
 	if err != nil {
 		return s3response.PutObjectOutput{}, handleError(err)
 	}
@@ -1119,14 +1101,6 @@ func (s *S3Proxy) CopyObject(ctx context.Context, input s3response.CopyObjectInp
 		input.WebsiteRedirectLocation = nil
 	}
 
-	var expires *time.Time
-	if input.Expires != nil {
-		exp, err := time.Parse(time.RFC1123, *input.Expires)
-		if err == nil {
-			expires = &exp
-		}
-	}
-
 	out, err := s.client.CopyObject(ctx,
 		&s3.CopyObjectInput{
 			Metadata:                       input.Metadata,
@@ -1145,7 +1119,6 @@ func (s *S3Proxy) CopyObject(ctx context.Context, input s3response.CopyObjectInp
 			CopySourceSSECustomerKeyMD5:    input.CopySourceSSECustomerKeyMD5,
 			ExpectedBucketOwner:            input.ExpectedBucketOwner,
 			ExpectedSourceBucketOwner:      input.ExpectedSourceBucketOwner,
-			Expires:                        expires,
 			GrantFullControl:               input.GrantFullControl,
 			GrantRead:                      input.GrantRead,
 			GrantReadACP:                   input.GrantReadACP,
@@ -1170,16 +1143,17 @@ func (s *S3Proxy) CopyObject(ctx context.Context, input s3response.CopyObjectInp
 			ServerSideEncryption:           input.ServerSideEncryption,
 			StorageClass:                   input.StorageClass,
 			TaggingDirective:               input.TaggingDirective,
-		}, rawExpires(input.Expires, expires))
+		}, rawExpires(input.Expires))
 	return out, handleError(err)
 }
 
-// rawExpires passes an Expires value that is not an RFC1123 date on as the
-// client sent it: the typed sdk field only takes a time, the endpoint stores
-// and returns the header verbatim.
-func rawExpires(value *string, parsed *time.Time) func(*s3.Options) {
+// rawExpires passes an Expires value on as the client sent it. The typed sdk
+// field takes a time and is written back as an RFC1123 date in GMT: a value
+// in another form (or zone, or no date at all), which the endpoint stores and
+// returns verbatim, would come back changed or not at all.
+func rawExpires(value *string) func(*s3.Options) {
 	return func(o *s3.Options) {
-		if value != nil && parsed == nil {
+		if value != nil {
 			o.APIOptions = append(o.APIOptions, smithyhttp.SetHeaderValue("Expires", *value))
 		}
 	}
